@@ -92,6 +92,11 @@ def memo_stores(eng, qual: str):
     for e in se.effects:
         if e.kind == "setitem" and e.target and e.target[0] == "item" and e.target[1][0] == "gval" and isinstance(e.target[1][1].v, dict):
             out.append((e.target[1], e.target[2], e))
+        elif e.kind == "setitem" and e.target and e.target[0] == "item" and e.target[1][0] == "global":
+            # (a module-level object the package writes into is an opaque value to the evaluator: what it was bound to at import says whether it is a dict)
+            v0 = eng.ce.module_env(eng.repo.func(qual).module).get(e.target[1][1])
+            if isinstance(v0, dict):
+                out.append((e.target[1], e.target[2], e))
     return out
 
 
